@@ -1,5 +1,6 @@
 import FordModel.Proto
 import FordModel.Links
+import FordModel.LinkSyntax
 namespace Ford
 open Proto Links
 
@@ -51,6 +52,7 @@ structure Query where
   ctx : Option Nat
   path : Option Path
   ref : Ref
+  text : Option Str := none   -- round 3: a whole documentation text (`T` lines); the model tokenizes it
 
 def queryOf (cwd : Path) (fs : List Str) : Query :=
   match fs with
@@ -70,11 +72,48 @@ def showTarget (P : Project) (q : Query) : Str :=
   | .ok (some id) => showNat id
   | _ => []
 
-def answer (env : Env) (P : Project) (q : Query) : Str :=
+def answerRef (env : Env) (P : Project) (q : Query) : Str :=
   match convertLink env P q.ctx q.path q.ref with
   | .link t h => joinSep '|' ["L".toList, t, h, showTarget P q]
   | .text t => joinSep '|' ["T".toList, t]
   | .err e => joinSep '|' ["X".toList, errName e]
+
+/-- `T|ctx|path|text` -/
+def textQueryOf (cwd : Path) (fs : List Str) : Query :=
+  match fs with
+  | ctx :: path :: t :: more =>
+    { ctx := optNat ctx, path := if path == ['-'] then none else some (absOf cwd path),
+      ref := { name := [] }, text := some (joinSep '|' (t :: more)) }
+  | _ => { ctx := none, path := none, ref := { name := [] }, text := some [] }
+
+def showSeg : OutSeg → Str
+  | .plain s => 'P' :: s
+  | .link t h => 'L' :: t ++ ';' :: h
+  | .text t => 'T' :: t
+
+/-- answer to a `T` query: `S|seg|seg|...` or `X|error` -/
+def answerText (env : Env) (P : Project) (q : Query) (t : Str) : Str :=
+  match convertText linkCfg env P q.ctx q.path t with
+  | .ok segs => joinSep '|' (['S'] :: segs.map showSeg)
+  | .error e => joinSep '|' [['X'], errName e]
+
+def showRef (r : Ref) : Str :=
+  joinSep ';' [r.name, (r.kind.map (fun k => '+' :: k)).getD [], (r.child.map (fun k => '+' :: k)).getD [],
+               (r.childKind.map (fun k => '+' :: k)).getD []]
+
+def showRawSeg : Seg → Str
+  | .plain s => 'P' :: s
+  | .ref r => 'R' :: showRef r
+
+/-- a `Q` query: the reference is written out and read back by the tokenizer, as the implementation
+    is handed the written text; `V` = not recognised, the text stays verbatim -/
+def answer (env : Env) (P : Project) (q : Query) : Str :=
+  match q.text with
+  | some t => answerText env P q t
+  | none =>
+    match segments linkCfg q.ref.render with
+    | [.ref r] => answerRef env P { q with ref := r }
+    | _ => ['V']
 
 structure Acc where
   ents : List Ent := []
@@ -90,6 +129,7 @@ def feed (cwd : Path) (a : Acc) (f : Str) : Acc :=
       | [attr, items] => { a with lists := (String.ofList attr, itemsOf (splitOn ',' items)) :: a.lists }
       | _ => a
     else if t == ['Q'] then { a with queries := queryOf cwd rest :: a.queries }
+    else if t == ['T'] then { a with queries := textQueryOf cwd rest :: a.queries }
     else a
   | [] => a
 
@@ -110,6 +150,16 @@ def dispatchC11 : List Str → Option (List Str)
       match args with
       | [t, s] => some ["ok".toList, joinSep '/' (relpath (pathOf t) (pathOf s))]
       | _ => some ["bad-request".toList]
+    else if cmd == "c11.isword".toList then
+      -- the character class `\w` of the model for the code points lo .. hi-1, as a string of 0/1
+      match args with
+      | [lo, hi] =>
+        some ["ok".toList, ((List.range (natOf hi - natOf lo)).map fun i =>
+          if isWordU (Char.ofNat (natOf lo + i)) then '1' else '0')]
+      | _ => some ["bad-request".toList]
+    else if cmd == "c11.segments".toList then
+      -- the tokenizer alone: every argument is a text, the answer its pieces
+      some ("ok".toList :: args.map fun t => joinSep '|' (['S'] :: (segments linkCfg t).map showRawSeg))
     else if cmd == "c11.render".toList then
       match args with
       | [name, kind, child, ckind] =>
